@@ -300,13 +300,13 @@ def run2 (cmd : String) (rest : String) : Option String :=
     | [n, om, fails] => do
       let n ← n.toNat?
       let fails ← if fails == "-" then some [] else natList? fails
-      match mapDfW (fun (x : Nat) => if x ∈ fails then none else some x) (List.range n) (om == "1") with
+      match mapDfOf Gen.NblastJobs.dfFacts (fun (x : Nat) => if x ∈ fails then none else some x) (List.range n) (om == "1") with
       | some out => pure (",".intercalate (out.map fun p => s!"{p.1}:{p.2}"))
       | none => pure "RAISE"
     | _ => none
   | "facts" =>
     pure (s!"batchCores={Gen.NblastJobs.batchCalls.map (·.2)} maps={Gen.NblastJobs.mapSites.map (·.2)} " ++
-          s!"exclStart={Gen.NblastJobs.exclPosStart} smartDecl={Gen.NblastJobs.smartFull.declOk} " ++
+          s!"exclStart={Gen.NblastJobs.exclPosStart} dfZip={Gen.NblastJobs.dfFacts.zipPartner} smartDecl={Gen.NblastJobs.smartFull.declOk} " ++
           s!"grid={[Gen.NblastJobs.nblast, Gen.NblastJobs.allbyall, Gen.NblastJobs.smartPre, Gen.NblastJobs.synblast, Gen.NblastJobs.nblastAlign].map (·.gridOk)}")
   | _ => none
 
